@@ -284,7 +284,7 @@ class Region(object):
             for d in range(self.maxdepth+1, other.maxdepth+1):
                 for p in other.pixeldict[d]:
                     # promote this pixel to self.maxdepth
-                    pp = p/4**(d-self.maxdepth)
+                    pp = p//4**(d-self.maxdepth)
                     self.pixeldict[self.maxdepth].add(pp)
         if renorm:
             self._renorm()
